@@ -46,12 +46,13 @@ const (
 // Seg is one piece of a source text. For the three comment kinds the text after the comment
 // marker is Lead + Mark + Sep + Gap + Body:
 //
-//	Lead  blanks (space, tab)
+//	Lead  blanks (space, tab); in a block comment also line breaks: the text of the comment then
+//	      starts on a later line than the comment marker ("/*\n  TODO: x\n*/")
 //	Mark  "" (an ordinary comment) or TODO / FIXME in some letter case
 //	Sep   "" | ":" | "(name)" | "(name):"   directly after the mark; the name may be padded with
 //	      spaces inside the parentheses ("( bob )") and the colon may stand off by blanks
-//	      ("TODO :", "TODO(bob) :")
-//	Gap   blanks
+//	      ("TODO :", "TODO(bob) :"), in a block comment also by a line break
+//	Gap   blanks; in a block comment also line breaks (the message starts on a later line than the mark)
 //	Body  the remaining text (the message when Mark != "")
 type Seg struct {
 	K    string `json:"k"`
@@ -135,7 +136,9 @@ var (
 	reChrInner  = regexp.MustCompile(`^([^'\\\r\n]|\\[btnfr"'\\]|\\[0-3]?[0-7]?[0-7]|\\u+[0-9a-fA-F]{4})$`)
 	reWs        = regexp.MustCompile(`^[ \t\r\n]*$`)
 	reBlanks    = regexp.MustCompile(`^[ \t]*$`)
+	reBlanksNl  = regexp.MustCompile(`^[ \t\r\n]*$`) // block comments: blanks and line breaks
 	reSep       = regexp.MustCompile(`^(|[ \t]*:|\( *[A-Za-z0-9_.+\-@]([A-Za-z0-9_ .+\-@]*[A-Za-z0-9_.+\-@])? *\)([ \t]*:)?)$`)
+	reSepBlock  = regexp.MustCompile(`^(|[ \t\r\n]*:|\( *[A-Za-z0-9_.+\-@]([A-Za-z0-9_ .+\-@]*[A-Za-z0-9_.+\-@])? *\)([ \t\r\n]*:)?)$`)
 	reOpenText  = regexp.MustCompile(`^[A-Za-z0-9 :().\n]*$`)
 	rePathPart  = regexp.MustCompile(`^\.?[A-Za-z0-9_-]+(\.[A-Za-z0-9_]+)*$`)
 	reFileName  = regexp.MustCompile(`^[A-Za-z0-9_-]+(\.[A-Za-z0-9_~+]+)+$`)
@@ -176,7 +179,11 @@ func firstRune(s string) rune {
 }
 
 func guardComment(s Seg) string {
-	if !reBlanks.MatchString(s.Lead) || !reBlanks.MatchString(s.Gap) {
+	blanks, sep := reBlanks, reSep
+	if s.K == kBlock { // the only kind that can hold a line break
+		blanks, sep = reBlanksNl, reSepBlock
+	}
+	if !blanks.MatchString(s.Lead) || !blanks.MatchString(s.Gap) {
 		return "lead/gap must be blanks"
 	}
 	in := s.inner()
@@ -215,7 +222,7 @@ func guardComment(s Seg) string {
 	if !isMark(s.Mark) {
 		return "mark is not TODO/FIXME"
 	}
-	if !reSep.MatchString(s.Sep) {
+	if !sep.MatchString(s.Sep) {
 		return "separator form outside the domain"
 	}
 	if s.Body != "" {
@@ -843,6 +850,10 @@ func showAll(c Case) string {
 
 var reMention = regexp.MustCompile(`(?i)todo|fixme`)
 
+// reSameLine: a comment marker (also one inside a literal) followed on the same line by blanks and
+// TODO / FIXME. Only used to label files in which no reportable comment has that look.
+var reSameLine = regexp.MustCompile(`(?i)(//|/\*|#)[ \t]*(todo|fixme)`)
+
 func classify(c Case) pbt.Verdict {
 	v := pbt.Verdict{}
 	set := map[string]bool{}
@@ -855,7 +866,7 @@ func classify(c Case) pbt.Verdict {
 	var canon []string
 	for _, f := range c.Files {
 		sel := selected(f.Path, c.Filters)
-		reportable, decoys := 0, 0
+		reportable, decoys, nlTodos := 0, 0, 0
 		line := 1
 		lastTodoLine := 0
 		for _, s := range f.Segs {
@@ -888,12 +899,25 @@ func classify(c Case) pbt.Verdict {
 					add(s.Sep == "" && s.Gap == "" && s.Body != "", "punctuation_directly_after_mark")
 					add(line >= 10, "todo_on_line_10_or_later")
 					add(lastTodoLine == line, "two_todos_on_one_line")
+					add(strings.Contains(s.Lead, "\n"), "block_todo_text_starts_on_a_later_line_than_the_marker")
+					add(strings.Contains(s.Lead, "\r\n"), "block_todo_text_starts_after_crlf")
+					add(strings.Count(s.Lead, "\n") > 1, "block_todo_text_starts_two_or_more_lines_below_the_marker")
+					add(strings.Contains(s.Gap, "\n"), "block_todo_message_starts_on_a_later_line_than_the_mark")
+					add(strings.Contains(s.Lead, "\n") && strings.Contains(s.Gap, "\n"), "block_todo_marker_mark_and_message_on_three_lines")
+					add(strings.Contains(s.Sep, "\n"), "line_break_between_mark_and_colon")
+					add(strings.Contains(s.Lead, "\n") && s.Sep == "" && s.Gap == "" && s.Body == "", "marker_only_on_a_later_line")
+					add(len(s.Lead) >= 4 && !strings.Contains(s.Lead, "\n"), "four_or_more_blanks_after_comment_marker")
+					if strings.Contains(s.Lead, "\n") {
+						nlTodos++
+					}
 					lastTodoLine = line
 				} else {
 					add(true, "todo_in_file_with_unselected_extension")
 				}
 			case s.isComment():
 				add(s.inner() == "", "empty_comment")
+				add(s.K == kBlock && strings.Contains(s.Lead, "\n"), "ordinary_block_comment_opening_with_a_line_break")
+				add(s.K == kBlock && s.Body == "" && strings.Contains(s.Lead, "\n"), "block_comment_of_blanks_and_line_breaks_only")
 				add(utf8.RuneCountInString(s.inner()) == 1, "one_character_comment")
 				if reMention.MatchString(s.Body) {
 					decoys++
@@ -924,6 +948,8 @@ func classify(c Case) pbt.Verdict {
 			v.NonTrivial = true
 		}
 		add(len(f.Segs) == 0, "empty_file")
+		add(sel && reportable > 0 && nlTodos == reportable, "file_whose_every_todo_starts_on_a_later_line_than_its_marker")
+		add(sel && reportable > 0 && !reSameLine.MatchString(f.text()), "file_with_todos_but_no_marker_followed_by_the_mark_on_its_own_line_anywhere")
 		canon = append(canon, fmt.Sprintf("%v|%s|%s", sel, f.Path[strings.LastIndex(f.Path, "."):], f.text()))
 	}
 	add(v.NonTrivial, "reportable_and_decoy_in_one_file")
@@ -996,14 +1022,19 @@ var (
 	operators  = []string{"=", "+", "-", "*", "/", "==", "<=", "->", "::", "&&", "/=", "*=", "%", "!", "~", "?", ":", "++", "...", "@", ">>>=", "|"}
 	separators = []string{";", "(", ")", "{", "}", "[", "]", ",", "."}
 	wsList     = []string{" ", "\n", "", "\t", "  ", "\n\n", " \n", "\n    ", "\r\n", "\n\t", "\n\n\n\n\n\n\n\n\n\n\n"}
-	leads      = []string{" ", "", "\t", "  ", " \t "}
-	nameChars  = []string{"a", "Z", "7", "_", ".", "+", "-", "@"}
-	pads       = []string{" ", "  ", "   "}                       // blanks of the assignee alphabet (space only)
-	colonGaps  = []string{"", "", "", "", " ", "\t", "  ", " \t"} // between the mark or '(name)' and the colon
-	marks      = []string{"TODO", "FIXME", "todo", "fixme", "Todo", "FixMe", "tOdO", "ToDo", "FIXme", "toDO"}
-	names      = []string{"bob", "a", "phodal", "j.doe", "a b", "x@y.z", "me+you", "A_1", "k-9", "a  b", "Bob", "B", "9lives", "QA", "very.long_name-with+all@kinds.of.chars", "_", "007", "a.b.c"}
-	strPieces  = []string{"a", " ", "//", "/*", "*/", "#", "TODO", "TODO: x", "FIXME(bob): y", "// TODO: z", "/* todo */", "# fixme", `\n`, `\"`, `\\`, `\'`, `\u0041`, `\0`, `\177`, "'", "é", "x=1;", "%s"}
-	chrList    = []string{"a", "#", "/", "*", `"`, `\'`, `\\`, `\n`, `\u0041`, "é", " ", `\7`, "T"}
+	leads      = []string{" ", "", "\t", "  ", " \t ", "    ", "\t\t", "        ", " \t  \t "}
+	// block comments only: line breaks between the comment marker and the text, between the mark
+	// (or its separator) and the message, between the mark or '(name)' and the colon
+	nlLeads     = []string{"\n", "\n ", "\n  ", "\n\t", " \n", "\r\n", "\n\n", "\n    ", " \t\n \t", "\r\n  ", "\n\n\n", "  \n"}
+	nlGaps      = []string{"\n", "\n ", "\n   ", " \n", "\r\n", "\n\t", "\n\n", " \n  "}
+	nlColonGaps = []string{"\n", " \n", "\n ", "\r\n"}
+	nameChars   = []string{"a", "Z", "7", "_", ".", "+", "-", "@"}
+	pads        = []string{" ", "  ", "   "}                       // blanks of the assignee alphabet (space only)
+	colonGaps   = []string{"", "", "", "", " ", "\t", "  ", " \t"} // between the mark or '(name)' and the colon
+	marks       = []string{"TODO", "FIXME", "todo", "fixme", "Todo", "FixMe", "tOdO", "ToDo", "FIXme", "toDO"}
+	names       = []string{"bob", "a", "phodal", "j.doe", "a b", "x@y.z", "me+you", "A_1", "k-9", "a  b", "Bob", "B", "9lives", "QA", "very.long_name-with+all@kinds.of.chars", "_", "007", "a.b.c"}
+	strPieces   = []string{"a", " ", "//", "/*", "*/", "#", "TODO", "TODO: x", "FIXME(bob): y", "// TODO: z", "/* todo */", "# fixme", `\n`, `\"`, `\\`, `\'`, `\u0041`, `\0`, `\177`, "'", "é", "x=1;", "%s"}
+	chrList     = []string{"a", "#", "/", "*", `"`, `\'`, `\\`, `\n`, `\u0041`, "é", " ", `\7`, "T"}
 	// message / comment text pieces; line breaks are added for block comments only
 	textPieces = []string{"fix", " ", "this", "  ", "a", "TODO", "todo:", "FIXME", " later", "(x)", ":", "/*", "//", "#", `"`, "'", "é", "日本語", "—", "b1", ".", ",", "(bob)", "@", "-", "+", `\`, "`", "{}", "x=1;", "\t", "see TODO", "not a fixme", "!", "/", "T", "TOD", "FIX ME", "xTODO", "_FIXME", "to do"}
 	starPieces = []string{"*", " * ", "**", "a*b", "*/"}
@@ -1141,6 +1172,20 @@ func genComment(ch chooser, kind string) Seg {
 		}
 	default: // blanks only
 		s.Lead = pick(ch, leads)
+	}
+	if kind == kBlock && shape != 8 {
+		// line breaks inside the comment, before the text / the message / the colon (0 = none):
+		// the comment still starts on the line of its marker, and its text still begins with the mark
+		nl := ch.n(7)
+		if nl == 4 || nl == 5 || nl == 7 {
+			s.Lead = pick(ch, nlLeads)
+		}
+		if (nl == 3 || nl == 5) && s.Mark != "" && !(s.Sep == "" && s.Gap == "" && s.Body != "") {
+			s.Gap = pick(ch, nlGaps)
+		}
+		if (nl == 6 || nl == 7) && strings.HasSuffix(s.Sep, ":") {
+			s.Sep = strings.TrimRight(strings.TrimSuffix(s.Sep, ":"), " \t") + pick(ch, nlColonGaps) + ":"
+		}
 	}
 	if kind == kBlock && strings.HasPrefix(s.inner(), "*") {
 		s.Lead = " " + s.Lead
@@ -1402,10 +1447,11 @@ func genDefaults(t *rapid.T) Case {
 
 func init() {
 	pbt.SetProperty("C17")
-	pbt.Describe("rapid-generated directories of 1-3 (now and then up to 5) files in the directory itself or in sub-directories (plain, hidden, vendor / node_modules / build / target / testdata, four levels deep, and directories whose own name ends in a selected extension: node_modules/highlight.js, pkg.java, x.py, app.go); a file is 0-12 (thorough 0-18) segments: code tokens (identifiers incl. TODO/FIXME, numbers, operators incl. / and *, separators), Java-style string literals, one-character char literals and back-tick template / raw string literals (possibly multi-line) containing //, /*, */, #, TODO, escapes, line / block / hash comments, white space (incl. CRLF and runs of line breaks, so that comments start on lines >= 10), optionally an unterminated block comment as last segment. Comment text = blanks + [TODO|FIXME in 10 letter cases] + ['' | ':' | '(name)' | '(name):' | a punctuation character -.!,;?/=> directly after the mark; the name may be padded with 1-3 spaces inside the parentheses on the left, on the right or on both sides ('( bob )'), and the colon may stand off from the mark or from '(name)' by blanks ('TODO :', 'TODO(bob) \t:')] + blanks + text built from hostile pieces (comment markers, quotes, parentheses, colons, non-ASCII, words that mention TODO/FIXME, in block comments line breaks with and without ' * ' decoration); names from the tool's assignee alphabet incl. upper case, leading digit or underscore, long, and names of 1-5 characters built from that alphabet (letters, digit, _ . + - @, inner spaces); also empty, one-character and blanks-only comments. File extensions from the selected list, from the CLI's default list, and near misses (.javax, .java.txt, .java~, .kts, .gradle.kts, .cc, .hh ...); filters from the default list plus .c .rb .txt .h .f90 .c++ .m4 .s. Sequences: the same scan twice; a second scan of the same directory with other filters (same process / same working directory) and then the first again; a scan of one selected file by its own path. Entry points: todo.TodoApp.AnalysisPath (absolute path, with and without trailing slash) and `coca todo` with -p src | absolute | ./src | src/ | . | no -p (working directory = the directory), -p/-e or --path/--ext=, and without -e (documented default list; sub-check cli_default puts a reportable comment into one file per default extension). Expected entries (file, start line, assignee, message) are computed from the segments; for the CLI the table on stdout must have one row per entry of simple-todos.json with the same line numbers and 'Todos Count' must be their number. Non-trivial = a file with a selected extension holds at least one reportable comment and at least one decoy (literal containing a comment marker or TODO/FIXME, or comment mentioning TODO/FIXME later); distinct = hash of the sorted (selected?, extension, text) of the files.",
+	pbt.Describe("rapid-generated directories of 1-3 (now and then up to 5) files in the directory itself or in sub-directories (plain, hidden, vendor / node_modules / build / target / testdata, four levels deep, and directories whose own name ends in a selected extension: node_modules/highlight.js, pkg.java, x.py, app.go); a file is 0-12 (thorough 0-18) segments: code tokens (identifiers incl. TODO/FIXME, numbers, operators incl. / and *, separators), Java-style string literals, one-character char literals and back-tick template / raw string literals (possibly multi-line) containing //, /*, */, #, TODO, escapes, line / block / hash comments, white space (incl. CRLF and runs of line breaks, so that comments start on lines >= 10), optionally an unterminated block comment as last segment. Comment text = blanks (none, 1-8 spaces and tabs) + [TODO|FIXME in 10 letter cases] + ['' | ':' | '(name)' | '(name):' | a punctuation character -.!,;?/=> directly after the mark; the name may be padded with 1-3 spaces inside the parentheses on the left, on the right or on both sides ('( bob )'), and the colon may stand off from the mark or from '(name)' by blanks ('TODO :', 'TODO(bob) \t:')] + blanks + text built from hostile pieces (comment markers, quotes, parentheses, colons, non-ASCII, words that mention TODO/FIXME, in block comments line breaks with and without ' * ' decoration); names from the tool's assignee alphabet incl. upper case, leading digit or underscore, long, and names of 1-5 characters built from that alphabet (letters, digit, _ . + - @, inner spaces); also empty, one-character and blanks-only comments. In block comments each of the three runs of blanks may instead hold line breaks (LF, CRLF, several, with indentation): between '/*' and the text, so that the text (marked or ordinary) starts one or more lines below the comment marker ('/*\\n  TODO(bob): x\\n*/', also marker only and blanks-and-line-breaks only), between the mark or its separator and the message ('/* TODO:\\n   x */'), and between the mark or '(name)' and the colon; the comment's line stays the line of '/*'. Files therefore occur whose only reportable comments have no TODO/FIXME on the line of their comment marker. File extensions from the selected list, from the CLI's default list, and near misses (.javax, .java.txt, .java~, .kts, .gradle.kts, .cc, .hh ...); filters from the default list plus .c .rb .txt .h .f90 .c++ .m4 .s. Sequences: the same scan twice; a second scan of the same directory with other filters (same process / same working directory) and then the first again; a scan of one selected file by its own path. Entry points: todo.TodoApp.AnalysisPath (absolute path, with and without trailing slash) and `coca todo` with -p src | absolute | ./src | src/ | . | no -p (working directory = the directory), -p/-e or --path/--ext=, and without -e (documented default list; sub-check cli_default puts a reportable comment into one file per default extension). Expected entries (file, start line, assignee, message) are computed from the segments; for the CLI the table on stdout must have one row per entry of simple-todos.json with the same line numbers and 'Todos Count' must be their number. Non-trivial = a file with a selected extension holds at least one reportable comment and at least one decoy (literal containing a comment marker or TODO/FIXME, or comment mentioning TODO/FIXME later); distinct = hash of the sorted (selected?, extension, text) of the files.",
 		"messages are compared after collapsing white space and trimming; in block comments an asterisk counts as white space on both sides (continuation-line decoration and terminator), in line and hash comments it is ordinary text",
-		"forms the statement leaves open are not generated: mark directly followed by a letter, digit or underscore (TODOS, TODO1), message starting with ':' or '(' , blank between mark and '(name)', colon before '(name)', more than one colon, names outside [A-Za-z0-9_ .+-@], names that are blanks only, tabs inside the parentheses, /** doc comments and block comments whose text starts on a later line, Unicode white space or letters that upper-case to ASCII directly after the comment marker, form feed / U+2028 line ends, back-slashes inside template strings, Python single-quoted and triple-quoted strings, .gitignore files, paths containing testData, extensions that differ from a filter only in letter case, filters with more than one dot",
+		"forms the statement leaves open are not generated: mark directly followed by a letter, digit or underscore (TODOS, TODO1), message starting with ':' or '(' , blank between mark and '(name)', colon before '(name)', more than one colon, names outside [A-Za-z0-9_ .+-@], names that are blanks only, tabs inside the parentheses, /** doc comments, block comments whose first text line carries a ' * ' decoration before the mark (generated only as ordinary comments: their text begins with an asterisk), white space other than space, tab, LF and CRLF (form feed, vertical tab, NBSP and other Unicode white space) or letters that upper-case to ASCII directly after the comment marker or the mark, form feed / U+2028 line ends, back-slashes inside template strings, Python single-quoted and triple-quoted strings, .gitignore files, paths containing testData, extensions that differ from a filter only in letter case, filters with more than one dot",
 		"a name padded with spaces inside the parentheses ('( bob )'): the expected assignee is the name; the statement does not say whether the report keeps the blanks next to the parentheses, so the reported assignee is compared after trimming them (for an unpadded name the comparison is exact); the message must be the remaining text either way",
+		"in a block comment a line break (LF or CRLF) counts among the blanks after the comment marker: a block comment whose text starts on a later line and begins there with TODO/FIXME is a reportable comment, reported with the line of its '/*' (the statement: 'the line where the comment starts'); likewise the message may start on a later line than the mark (messages are compared with white space collapsed)",
 		"without -e the selected extensions are the default list documented by `coca todo --help` (.java,.py,.go,.ts,.js,.kt,.groovy,.gradle)",
 		"a file named by its own path is only scanned that way when its extension is selected (the walker applies no filter to a single file; the statement does not say)",
 		"entries on or after the line of an unterminated block comment at the end of a file are not judged (only crash-freedom)",
